@@ -15,7 +15,7 @@ RULE = ('forms for 4 catalogue structs (text fields, Option<String>, File, Optio
         'near-miss delimiters, Unicode names and filenames, any boundary token, optional part headers (Content-Type on text parts, extra headers, header-name case), fields in any order, unknown fields, '
         'shape mismatches (two files into File, text into File, file into text), plus mutated bodies; non-trivial = a file part with awkward content or >= 2 files or optional headers')
 ASSUMPTIONS = ['the delimiter (CRLF "--" boundary, RFC 2046 5.1.1) occurs nowhere inside a part content, i.e. "--" boundary starts no line of it (hypothesis Fits of parse_encode); in the middle of a line it is content',
-               'file parts carry a Content-Type (the media type the property compares); same-name files are adjacent in the form']
+               'a file part without a Content-Type is text/plain (RFC 7578 4.4)']
 FIELDS = {0: [['note', 'optText', False], ['f', 'optFile', False], ['fs', 'files', True]],
           1: [['title', 'text', False], ['doc', 'file', False]],
           2: [['a', 'text', False], ['b', 'text', False], ['pics', 'files', False]],
@@ -56,7 +56,8 @@ def encode(boundary, parts, rng=None, optional=False):
         d = f'{cd}: form-data; name="{name}"'
         if filename is not None: d += f'; filename="{filename}"'
         hs.append(d.encode())
-        if filename is not None: hs.append(('Content-Type: ' + mime).encode())
+        if filename is not None:
+            if not (optional and rng and mime == 'text/plain' and rng.random() < 0.6): hs.append(('Content-Type: ' + mime).encode())          # the Content-Type of a part is optional and defaults to text/plain (RFC 7578 4.4)
         elif optional and rng and rng.random() < 0.5: hs.append(b'Content-Type: text/plain; charset=utf-8')
         if optional and rng and rng.random() < 0.4: hs.append(rng.choice([b'X-Extra: 1', b'Content-Transfer-Encoding: binary', b'Content-Length: 3', b'X-Weird:no-space']))
         if optional and rng and rng.random() < 0.3: hs.reverse()
@@ -98,6 +99,15 @@ def form_gen(rng, tid, boundary):
                 fj = [{'filename': hx(fn), 'mimetype': hx(mt), 'content': c.hex()} for fn, mt, c in files]
                 want[name] = {'file': fj[0]} if ty == 'file' else {'some': {'file': fj[0]}} if ty == 'optFile' else {'seq': fj}
     expected = [[hx(n), want[n]] for n, _, _ in fields]
+    if not mismatch and rng.random() < 0.2:          # the parts of one name need not be adjacent: the last file of a group is submitted after the other fields (its place within the name is unchanged)
+        multi = [n for n, t, _ in fields if t == 'files' and sum(1 for p in parts if p[0] == n) >= 2]
+        if multi:
+            n = rng.choice(multi)
+            i = max(j for j, p in enumerate(parts) if p[0] == n)
+            parts.append(parts.pop(i))
+            if rng.random() < 0.5:          # ... or the first one before them
+                i = min(j for j, p in enumerate(parts) if p[0] == n)
+                parts.insert(0, parts.pop(i))
     if mismatch:
         name, ty, _ = rng.choice(fields)
         k = rng.random()
